@@ -154,8 +154,14 @@ func genRobustPlan(seed uint64, tier string) *Plan {
 			nl := strings.Index(s, "\r\n")
 			switch g.intn(5) {
 			case 0:
-				s = g.pick("INVITE sip:a@b", "INVITE sip:a@b SIP/2.0 extra", "SIP/2.0", "SIP/2.0 abc OK", "SIP/2.0 99999999999999999999 OK", "SIP/2.0 -5 X", " ", "INVITE  SIP/2.0") + s[nl:]
-				base.S["how"] = "start-line"
+				if strings.HasPrefix(s, "SIP/") && g.chance(70) {
+					// status codes outside 100-699 in an otherwise routable response
+					s = "SIP/2.0 " + g.pick("700", "799", "999", "1000", "65536", "2147483647", "-100", "-1000", "0", "99", "-1") + " Strange" + s[nl:]
+					base.S["how"] = "status-out-of-range"
+				} else {
+					s = g.pick("INVITE sip:a@b", "INVITE sip:a@b SIP/2.0 extra", "SIP/2.0", "SIP/2.0 abc OK", "SIP/2.0 99999999999999999999 OK", "SIP/2.0 -5 X", " ", "INVITE  SIP/2.0") + s[nl:]
+					base.S["how"] = "start-line"
+				}
 			case 1:
 				var sb strings.Builder
 				sb.WriteString(s[:nl+2])
@@ -178,6 +184,21 @@ func genRobustPlan(seed uint64, tier string) *Plan {
 				base.S["how"] = "expires"
 			}
 			data = []byte(s)
+		}
+		if g.chance(12) {
+			// multi-step: a valid service request over TCP, then undecodable bytes on the same
+			// connection (or the client hangs up), then the backend's answer to the first request
+			id := g.nextID()
+			b := &sipwire.Builder{Start: "OPTIONS sip:probe@svc.example.com SIP/2.0"}
+			b.Add("Via", "SIP/2.0/TCP 10.1.0.2:5060;branch=z9hG4bK"+strings.ReplaceAll(id, "-", "")+g.pick("", ";rport"))
+			b.Add("From", "<sip:a@caller.test>;tag=1")
+			b.Add("To", "<sip:probe@svc.example.com>")
+			b.Add("Call-ID", "cid-"+id)
+			b.Add("CSeq", "1 OPTIONS")
+			b.Add("X-Sim-Id", id)
+			base = Op{Kind: "hostile", ID: id, Proto: "tcp", SrcIP: "10.1.0.2", Listen: g.intn(len(p.Cfg.Listens)), Conn: "h-" + id,
+				S: map[string]string{"how": "valid-then-" + g.pick("garbage", "hangup") + "-then-answer"}}
+			data = b.Bytes()
 		}
 		if len(data) == 0 {
 			data = []byte("\r\n")
@@ -370,6 +391,26 @@ func execRobust(t *testing.T, p *Plan) *Result {
 				}
 				conn = c
 				c.Write(op.Data)
+				if strings.HasPrefix(how, "valid-then-") {
+					w.K.Settle(10 * time.Second)
+					var relayed *Emitted
+					for _, e := range st.emissionsOf(op.ID) {
+						relayed = e
+					}
+					if strings.Contains(how, "garbage") {
+						c.Write([]byte("\x00\x01garbage without any colon\r\nmore garbage\r\n\r\n"))
+					} else {
+						c.Close()
+					}
+					w.K.Settle(10 * time.Second)
+					if relayed != nil && relayed.M != nil {
+						if vias, err := relayed.M.Vias(); err == nil && len(vias) > 0 {
+							resp := buildResponse(relayed.M, respPlan{status: 200, toTag: "t" + strings.ReplaceAll(op.ID, "-", ""), expires: -1}, op.ID)
+							w.N.InjectUDP(udpAddr(relayed.E.Dst), udpAddr(hostPort(vias[0].Host, l.UDP)), resp, 100*time.Microsecond)
+							w.stat("probe:answer-after-its-connection-was-closed")
+						}
+					}
+				}
 			}
 			settled := w.K.Settle(10 * time.Second)
 			a1 := heapAllocs()
